@@ -278,12 +278,44 @@ func (vc *VC) computeAddrOnly() {
 							vc.escAtEnd[pb.Index] = append(vc.escAtEnd[pb.Index], al)
 						}
 					}
+				case *ssa.MakeInterface:
+					// handed to a library function as `any` (a decoder filling the object): the library does not
+					// rely on the package's field invariants; the object is checked where the package publishes it
+					if vc.onlyLibraryCalls(u) {
+						continue
+					}
+					vc.escBefore[r] = append(vc.escBefore[r], al)
 				default:
+					if ci, ok := r.(ssa.CallInstruction); ok && vc.isLibraryCall(ci) {
+						continue
+					}
 					vc.escBefore[r] = append(vc.escBefore[r], al)
 				}
 			}
 		}
 	}
+}
+
+func (vc *VC) isLibraryCall(ci ssa.CallInstruction) bool {
+	g := ci.Common().StaticCallee()
+	return g != nil && g.Pkg != vc.e.pkg && !ci.Common().IsInvoke()
+}
+
+func (vc *VC) onlyLibraryCalls(v ssa.Value) bool {
+	refs := v.Referrers()
+	if refs == nil || len(*refs) == 0 {
+		return false
+	}
+	for _, r := range *refs {
+		if _, ok := r.(*ssa.DebugRef); ok {
+			continue
+		}
+		ci, ok := r.(ssa.CallInstruction)
+		if !ok || !vc.isLibraryCall(ci) {
+			return false
+		}
+	}
+	return true
 }
 
 func (vc *VC) hasNonNilFields(t types.Type) bool {
@@ -898,6 +930,14 @@ func (vc *VC) havoc(m *ModSet) {
 		lvl := modOld
 		if !m.All {
 			lvl = m.Arr[n]
+		}
+		if strings.HasPrefix(n, "F:") {
+			// a field under the `immutable` discipline is only ever stored into objects allocated by the storing
+			// function (an obligation at every store): whatever a callee does, objects that existed before the
+			// call keep their value
+			if _, imm := vc.e.cs.ImmutableField[n[2:]]; imm {
+				lvl = modFresh
+			}
 		}
 		if strings.HasPrefix(n, "GH:") && vc.e.ghostMonotone(n[3:]) && srt == "(Array Int Bool)" {
 			vc.gfact(fmt.Sprintf("(forall ((r Int)) (! (=> (select %s r) (select %s r)) :pattern ((select %s r))))", old, nw, nw))
